@@ -35,6 +35,7 @@ GEN_OBLIGATIONS = sc.GEN_OBLIGATIONS
 THEOREM_DEPS = ["C05Run", "C05Values"]
 
 SIG_DOWHILE = "end-not-after-start-tie"
+SIG_FANOUT = "pull-fanout-stateful-adapter"
 KINDS = ["scale", "lin", "step", "next", "prev", "avg", "sum", "dfix", "dpull"]  # no push-time-dependent adapter
 
 
@@ -129,6 +130,35 @@ def dowhile_tie(spec):
     return bool(starts) and spec["end"] <= min(starts) and starts.count(min(starts)) > 1
 
 
+def fanout_stateful(spec):
+    """recorded finding: a pull-based component with more than one consumer path forwards the requests of all of them
+    through its single input; an adapter upstream of it whose answer depends on its own request history (AvgOverTime /
+    SumOverTime integrate from the previous request, DelayToPull looks back n requests) then serves values that depend
+    on the order in which the consumers happen to be updated"""
+    comps, links = spec["comps"], spec["links"]
+
+    def stateful_upstream(c, seen=()):
+        for l in links:
+            if l["dst"] == c:
+                if any(a[0] in ("avg", "sum", "dpull") for a in l["ads"]):
+                    return True
+                if comps[l["src"]]["kind"] == "pull" and l["src"] not in seen and stateful_upstream(l["src"], seen + (c,)):
+                    return True
+        return False
+
+    def paths_out(c, seen=()):
+        n = 0
+        for l in links:
+            if l["src"] == c:
+                if comps[l["dst"]]["kind"] == "pull" and l["dst"] not in seen:
+                    n += paths_out(l["dst"], seen + (c,))
+                else:
+                    n += 1
+        return n
+
+    return any(cs["kind"] == "pull" and paths_out(i) > 1 and stateful_upstream(i) for i, cs in enumerate(comps))
+
+
 def other_finding(spec, impls):
     for impl in impls:
         if impl["error"] is not None:
@@ -194,6 +224,8 @@ def check_sched(ctx, spec, res, k, do_model=True):
         d = first_diff(base, observe(impl))
         if d:
             sig = SIG_DOWHILE if dowhile_tie(spec) and d["what"] in ("final", "status") or (dowhile_tie(spec) and d["what"].startswith("series")) else None
+            if sig is None and d["what"].startswith("series") and fanout_stateful(spec):
+                sig = SIG_FANOUT
             res.fail({"spec": sc.slim(spec), "first": [runs[0][0]["order"], runs[0][0]["link_order"]],
                       "other": [s["order"], s["link_order"]]},
                      "all permutations of the component list and of link creation give the same outcome, final times and received series",
@@ -322,12 +354,12 @@ def run(ctx, res):
                        "relativedelta steps are not modelled"]
     for spec in corpus():
         check_sched(ctx, spec, res, 6)
-    for _ in range(ctx.n(90, 2500)):
+    for _ in range(ctx.n(90, 1500)):
         spec = gen_sched(ctx)
         check_sched(ctx, spec, res, ctx.n(4, 8))
     for spec in c06e.corpus():
         check_connect(ctx, spec, res, 6)
-    for _ in range(ctx.n(160, 2500)):
+    for _ in range(ctx.n(160, 1500)):
         spec = c06e.gen_case(ctx.rng)
         check_connect(ctx, spec, res, ctx.n(4, 6))
 
@@ -380,7 +412,7 @@ def shrink(ctx, f):
         for a, b in pairs:
             c = {"spec": t, "first": a, "other": b}
             try:
-                if _differs(c) and (dowhile_tie(t) == (sig == SIG_DOWHILE)):
+                if _differs(c) and (dowhile_tie(t) == (sig == SIG_DOWHILE)) and (fanout_stateful(t) == (sig == SIG_FANOUT) or sig == SIG_DOWHILE):
                     still.last = c
                     return True
             except Exception:  # noqa
@@ -409,8 +441,8 @@ def replay(ctx, rp):
         else:
             return {"fails": False, "note": "nothing to replay"}
     d = _differs(case)
-    known = "spec" in case and dowhile_tie(case["spec"])
-    return {"fails": bool(d) and not known, "difference": d, "known_finding": SIG_DOWHILE if (d and known) else None}
+    known = "spec" in case and (dowhile_tie(case["spec"]) or fanout_stateful(case["spec"]))
+    return {"fails": bool(d) and not known, "difference": d, "known_finding": bool(d and known)}
 
 
 def _known_dowhile(ctx):
@@ -420,4 +452,14 @@ def _known_dowhile(ctx):
     return first_diff(observe(a), observe(b)) is not None
 
 
-KNOWN_REPRO = {SIG_DOWHILE: _known_dowhile}
+def _known_fanout(ctx):
+    spec = {"comps": [{"kind": "time", "start": 0, "steps": [8], "mix": True}, {"kind": "pull", "nout": 2},
+                      {"kind": "time", "start": 0, "steps": [4, 3], "mix": True}, {"kind": "time", "start": 0, "steps": [6, 3], "mix": True}],
+            "links": [{"src": 0, "out": 0, "dst": 1, "ads": [["sum"]]}, {"src": 1, "out": 0, "dst": 2, "ads": []},
+                      {"src": 1, "out": 1, "dst": 3, "ads": []}], "end": 4}
+    a = run_variant(spec, [0, 1, 2, 3], [0, 1, 2])[1]
+    b = run_variant(spec, [3, 2, 1, 0], [0, 1, 2])[1]
+    return first_diff(observe(a), observe(b)) is not None
+
+
+KNOWN_REPRO = {SIG_DOWHILE: _known_dowhile, SIG_FANOUT: _known_fanout}
